@@ -4,6 +4,7 @@ A == "a"
 B == "b"
 Pairs == {<<i, t>> : i \in {"s1", "s2"}, t \in {"t1", "t2", "t3"}}
 MCRequests == UNION {[1..n -> Pairs] : n \in 1..3}
+MCRequests4 == UNION {[1..n -> Pairs] : n \in 1..4}      \* thorough tier
 MCXis == {<<x, y, z>> : x \in -2..2, y \in -2..2, z \in {-3, 0, 1}}
 OneXi == {<<0, 1>>}
 OneReq == {<<<<"s1", "t1">>>>}
